@@ -23,6 +23,25 @@ CONTROL_FUNCS = [
     "BindResponse.SetControls", "SearchResponseDone.SetControls", "packet.controlPacket",
 ]
 
+RESPONSE_FUNCS = [
+    "Request.NewResponse", "Request.NewExtendedResponse", "Request.NewBindResponse", "Request.NewSearchDoneResponse",
+    "Request.NewSearchResponseEntry", "Request.NewModifyResponse", "ResponseWriter.Write", "beginResponse",
+    "addOptionalResponseChildren", "baseResponse.SetResultCode", "baseResponse.SetDiagnosticMessage",
+    "baseResponse.SetMatchedDN", "ExtendedResponse.packet", "BindResponse.packet", "BindResponse.SetControls",
+    "GeneralResponse.packet", "SearchResponseDone.packet", "SearchResponseDone.SetControls",
+    "SearchResponseEntry.packet", "SearchResponseEntry.AddAttribute", "EntryAttribute.encode", "NewEntryAttribute",
+    "responseDefaults", "getResponseOpts", "WithDiagnosticMessage", "WithMatchedDN", "WithResponseCode",
+    "WithApplicationCode", "WithAttributes", "applyOpts", "encodeControls", "intPtr",
+]
+
+HELPER_FUNCS = [
+    "ConvertString", "readLength", "SIDBytes", "SIDBytesToString", "NewEntry", "NewEntryAttribute",
+    "EntryAttribute.AddValue", "Request.NewModifyResponse", "Request.NewResponse", "NewControlString",
+    "NewControlManageDsaIT", "NewControlPaging", "NewControlBeheraPasswordPolicy", "NewControlMicrosoftNotification",
+    "NewControlMicrosoftServerLinkTTL", "NewControlMicrosoftShowDeleted", "Mux.Bind", "Mux.Unbind", "Mux.Search",
+    "Mux.ExtendedOperation", "Mux.Modify", "Mux.Add", "Mux.Delete", "Mux.DefaultRoute", "NewMux",
+]
+
 PROPS = {
     "C01": {
         "lean": ["GldapModel.Props.C01"],
@@ -33,6 +52,30 @@ PROPS = {
         ],
         "trusted": BER_TRUST,
         "assumptions": ["filters are compared semantically: the delivered filter string must recompile to the client's filter bytes"],
+    },
+    "C04": {
+        "lean": ["GldapModel.Props.C04"],
+        "audit": "GldapModel/Audit/C04.lean",
+        "inventory": RESPONSE_FUNCS,
+        "streams": [
+            {"stream": "resp", "n_quick": 20000, "n_thorough": 400000},
+        ],
+        "trusted": BER_TRUST + ["bufio.Writer into a bytes.Buffer (Write+Flush delivers exactly the bytes written)"],
+        "assumptions": ["WithAttributes maps are restricted to at most one key in the byte-exact stream, because Go map iteration order is random; multi-key maps are covered by the newentry stream and by the multiset oracle"],
+    },
+    "C16": {
+        "lean": ["GldapModel.Props.C16"],
+        "audit": "GldapModel/Audit/C16.lean",
+        "inventory": HELPER_FUNCS,
+        "streams": [
+            {"stream": "convert", "n_quick": 10000, "n_thorough": 100000},
+            {"stream": "sid", "n_quick": 6000, "n_thorough": 100000},
+            {"stream": "newentry", "n_quick": 4000, "n_thorough": 50000},
+            {"stream": "resp", "n_quick": 8000, "n_thorough": 100000},
+            {"stream": "behera-ctor", "n_quick": 3000, "n_thorough": 50000},
+        ],
+        "trusted": ["encoding/binary, sort.Strings, fmt %d re-implemented at byte level in the model and diffed against the real ones"],
+        "assumptions": [],
     },
     "C14": {
         "lean": ["GldapModel.Props.C14"],
